@@ -187,6 +187,13 @@ def netlist_shapes(tier):
         for seq in itertools.product('NRA', repeat=4):
             if seq.count('A') <= 1 and seq.count('R') <= 2:
                 out.append((seq, 1, 1))
+    # a two-output block whose outputs can both reach one multi-input sink that sits two columns away
+    # (two different wires from one child to the same far sink): {Two, Not|Reg, And2|Mux2} in every order
+    for a in 'NR':
+        for b in 'AM':
+            for seq in itertools.permutations(('T', a, b)):
+                if b == 'A' or tier != 'quick' or seq[0] == 'T':
+                    out.append((tuple(seq), 1, 1))
     res = []
     for seq, i, o in out:
         types = [L[x] for x in seq]
@@ -323,11 +330,31 @@ def examine(block, order='fwd', wires=None):
     if st == 'exception':
         return {'findings': [{'clause': 'exception', 'wire': None, 'wire_id': None, 'what': sch}],
                 'markers': 0, 'signature': ('exception', sch), 'wires': wires}
-    return {'findings': schem.judge(block, sch, wires), 'markers': schem.markers(sch),
+    findings = schem.judge(block, sch, wires)
+    if not findings:
+        findings = schem.judge_geometry(block, sch, wires)
+    return {'findings': findings, 'markers': schem.markers(sch),
             'signature': schem.drawing_signature(sch), 'wires': wires}
 
 
 _PRIORITY = ('self_loop', 'same_wire_two_pins', 'comb_cycle', 'feedback', 'long_edge', 'fanout', 'port_to_port', 'other')
+
+
+def one_wire_on_two_pins(block):
+    """True if some child has one wire on two of its pins, or two ports of the block share a wire"""
+    for c in block.children.values():
+        ws = [id(p.wire) for p in list(c.inPorts) + list(c.outPorts) if p.wire is not None]
+        if len(set(ws)) != len(ws):
+            return True
+    ws = [id(p.wire) for p in list(block.inPorts) + list(block.outPorts) if p.wire is not None]
+    return len(set(ws)) != len(ws)
+
+
+def _dup_suffix(block, f):
+    # root-cause tag for the geometric foreign-pin clause (see known finding F-C18-2)
+    if f['clause'] == 'drawn_foreign_pin' and one_wire_on_two_pins(block):
+        return ':with_one_wire_on_two_pins_of_a_symbol'
+    return ''
 
 
 def netlist_family(block, wires, finding):
@@ -439,7 +466,7 @@ def _run_netlists(desc, acc):
                                            'findings': len(ex['findings'])})
             seen = set()
             for f in ex['findings']:
-                sig = 'C18:netlist:%s:%s' % (netlist_family(wr, wires, f), f['clause'])
+                sig = 'C18:netlist:%s:%s%s' % (netlist_family(wr, wires, f), f['clause'], _dup_suffix(wr, f))
                 if sig in seen:
                     continue
                 seen.add(sig)
@@ -510,7 +537,7 @@ def _run_catalog(desc, acc):
                                                'grid': list(ex['signature'][:2]), 'nets': ex['signature'][3]})
                 seen = set()
                 for f in ex['findings']:
-                    sig = 'C18:catalog:%s:%s' % (type(node).__name__, f['clause'])
+                    sig = 'C18:catalog:%s:%s%s' % (type(node).__name__, f['clause'], _dup_suffix(node, f))
                     if sig in seen:
                         continue
                     seen.add(sig)
